@@ -503,6 +503,19 @@ fn concurrent(threads: u8, rep: &mut CaseReport) -> Result<(), Failure> {
     if results.iter().any(|r| matches!(r, Err(e) if e == "PANIC")) {
         return Err(Failure::new("panic", "a concurrent first open panicked".to_string()));
     }
+    if std::env::var("VCHECK_C13_DEBUG").is_ok() {
+        for r in &results {
+            if let Err(e) = r {
+                println!("  concurrent open failed: {e}");
+            }
+        }
+    }
+    for r in &results {
+        if let Err(e) = r {
+            let kind = e.split(':').next().unwrap_or("").chars().take(40).collect::<String>();
+            rep.classes.push(format!("concurrent-open-error:{kind}"));
+        }
+    }
     let oks: Vec<&MdkSqliteStorage> = results.iter().filter_map(|r| r.as_ref().ok()).collect();
     *rep.counters.entry("concurrent-opens".into()).or_insert(0) += n as u64;
     *rep.counters.entry("concurrent-opens-succeeded".into()).or_insert(0) += oks.len() as u64;
